@@ -15,7 +15,8 @@ EXTENDS Unparse, Json
 CONSTANT MaxDepth
 
 \* foriter: a loop over an iterator (until(1)); cofdeep: the stored block is rendered from inside a loop body that has its own x
-Kinds == {"for", "fn", "partial", "cof", "cof2", "blkown", "foriter", "cofdeep"}
+\* fn2: the function is called twice in a row from the same scope; its body reads x and y_i BEFORE it binds them
+Kinds == {"for", "fn", "fn2", "partial", "cof", "cof2", "blkown", "foriter", "cofdeep"}
 \* bind: the construct itself binds x; let: it binds an unrelated name and its body lets x;
 \* bare: it binds nothing at all (function without parameters, partial / contentOf without data) and its body lets x
 Modes == {"bind", "let", "bare"}
@@ -49,6 +50,9 @@ Construct(i) ==
   CASE fs[i].k = "for"     -> <<Emit(For("", BN(i), Arr(<<BV(i)>>), Body(i)))>>
     [] fs[i].k = "fn"      -> IF Bare(i) THEN <<Let(FNm(i), FnLit(<<>>, Body(i))), Emit(Call(FNm(i), <<>>))>>
                               ELSE <<Let(FNm(i), FnLit(<<BN(i)>>, Body(i))), Emit(Call(FNm(i), <<BV(i)>>))>>
+    [] fs[i].k = "fn2"     -> LET pre == <<Text(<<"<">>), Emit(Id("x")), Emit(IfElse(Id(YN(i)), <<Text(<<"L">>)>>, <<Text(<<"-">>)>>)), Text(<<">">>)>> IN
+                              IF Bare(i) THEN <<Let(FNm(i), FnLit(<<>>, pre \o Body(i))), Emit(Call(FNm(i), <<>>)), Text(<<"/">>), Emit(Call(FNm(i), <<>>))>>
+                              ELSE <<Let(FNm(i), FnLit(<<BN(i)>>, pre \o Body(i))), Emit(Call(FNm(i), <<BV(i)>>)), Text(<<"/">>), Emit(Call(FNm(i), <<BV(i)>>))>>
     [] fs[i].k = "partial" -> IF Bare(i) THEN <<Emit(Call("partial", <<Str(PN(i))>>))>>
                               ELSE <<Emit(Call("partial", <<Str(PN(i)), Hash(<<BN(i)>>, <<BV(i)>>)>>))>>
     [] fs[i].k = "cof"     -> <<Code(CallB("contentFor", <<Str(CN(i))>>, Body(i)))>> \o
@@ -69,7 +73,10 @@ Construct(i) ==
                                            Text(<<"LBR">>), Emit(Id("x")), Emit(Id("u")), Text(<<"RBR">>)>>))>>
     [] fs[i].k = "blkown"  -> <<Emit(CallB("blkown", <<IF Bare(i) THEN Hash(<<>>, <<>>) ELSE Hash(<<BN(i)>>, <<BV(i)>>)>>, Body(i)))>>
 
-Prog == <<Let("x", Str(<<"x", "0">>)), Let("t", Str(<<"t", "0">>))>> \o Probe
+\* t is not bound by the template: it is a value of the context.Context the root context was built
+\* around (plush.NewContextWithContext), visible from every scope like any other outer name
+Data == [t |-> S(<<"t", "0">>)]
+Prog == <<Let("x", Str(<<"x", "0">>))>> \o Probe
         \o (IF Len(fs) >= 1 THEN Construct(1) ELSE <<>>) \o ProbeAfter(1) \o Probe
 PartIdx == {i \in 1..Len(fs) : fs[i].k = "partial"}
 Parts == [nm \in {JoinChars(PN(i)) : i \in PartIdx} |-> Body(CHOOSE i \in PartIdx : JoinChars(PN(i)) = nm)]
@@ -79,7 +86,7 @@ AddFrame == /\ res.k = "none" /\ Len(fs) < MaxDepth
             /\ \E k \in Kinds, m \in Modes : (k = "foriter" => m = "let") /\ fs' = Append(fs, [k |-> k, m |-> m])
             /\ UNCHANGED res
 Finish == /\ res.k = "none" /\ Len(fs) >= 1
-          /\ res' = Run(Prog, WithHelpers(EmptyScope), Parts, "")
+          /\ res' = Run(Prog, WithHelpers(Data), Parts, "")
           /\ UNCHANGED fs
 Next == AddFrame \/ Finish
 Spec == Init /\ [][Next]_vars
@@ -98,7 +105,7 @@ RECURSIVE Inside(_)
 ProbeText(i) == <<"[">> \o XV(i) \o <<",", "t", "0", "]">>
 AfterText(j) == IF j <= Len(fs) THEN <<"(">> \o XV(j - 1) \o <<"-", ")">> ELSE <<>>
 Inside(i) == ProbeText(i) \o (IF i < Len(fs) THEN Inside(i + 1) ELSE <<"*">>) \o AfterText(i + 1)
-ProbeTheorem == (res.k = "out" /\ \A i \in 1..Len(fs) : fs[i].k \notin {"cof2", "cofdeep"}) => PiecesText(res.pieces) = ProbeText(0) \o Inside(1) \o AfterText(1) \o ProbeText(0)
+ProbeTheorem == (res.k = "out" /\ \A i \in 1..Len(fs) : fs[i].k \notin {"cof2", "cofdeep", "fn2"}) => PiecesText(res.pieces) = ProbeText(0) \o Inside(1) \o AfterText(1) \o ProbeText(0)
 
 Expect(r) == CASE r.k = "out" -> [k |-> "out", pieces |-> r.pieces, log |-> r.log]
                [] r.k = "err" -> [k |-> "err", w |-> r.w, log |-> r.log]
@@ -107,7 +114,7 @@ RECURSIVE ShapeOf(_)
 ShapeOf(i) == IF i > Len(fs) THEN "" ELSE fs[i].k \o "/" \o fs[i].m \o (IF i < Len(fs) THEN ">" ELSE "") \o ShapeOf(i + 1)
 
 EmitCase == res.k = "none" \/
-            PrintT("CASE " \o ToJson([gen |-> "GenScopes", src |-> Unparse(Prog), data |-> EmptyScope,
+            PrintT("CASE " \o ToJson([gen |-> "GenScopes", src |-> Unparse(Prog), data |-> Data, wrapped |-> <<"t">>,
                                        parts |-> [nm \in DOMAIN Parts |-> Unparse(Parts[nm])],
                                        shape |-> ShapeOf(1), expect |-> Expect(res)]))
 =============================================================================
